@@ -13,6 +13,10 @@ TRUSTED = ['rustc MIR of the emitted code', 'engine/idl.py']
 
 def run(ctx):
     rep = Report('C20')
+    import gen_thrift as _g
+    _g.corpus_generated(rep, 'G20.h')
+    if ctx['tier'] == 'thorough':
+        _g.corpus_generated(rep, 'G20.h', split=True)
     gen_thrift.defaults(rep)
     if ctx['tier'] == 'thorough':
         gen_thrift.defaults(rep, split=True)   # same rules on the split-file output
